@@ -4,7 +4,9 @@ use crate::verif::nodes::outstation::{Cb, CtrlAnswers, OutCfg};
 use crate::verif::refcodec::app::{self as refapp, Range, ReqHeader};
 use crate::verif::rng::{mix, Rng};
 use crate::verif::runner::{erase, Codec, Outcome, Property, Scenario, Tier, Violation};
-use crate::verif::sout::{self, ConfSel, Dest, Op, Oracle, SeqSel, SoutCase, Step, TimeBase, Who, World};
+use crate::verif::sout::{
+    self, ConfSel, Dest, Op, Oracle, SeqSel, SoutCase, Step, TimeBase, Who, World,
+};
 use serde::{Deserialize, Serialize};
 
 pub struct SboScenario;
@@ -18,11 +20,19 @@ pub fn property<C: Codec>() -> Property {
 
 /// a set of control headers
 pub fn gen_controls(rng: &mut Rng) -> Vec<ReqHeader> {
-    let nheaders = if rng.chance(3, 4) { 1 } else { rng.urange(2, 3) };
+    let nheaders = if rng.chance(3, 4) {
+        1
+    } else {
+        rng.urange(2, 3)
+    };
     let mut out = Vec::new();
     for _ in 0..nheaders {
         let (group, var) = *rng.pick(&[(12u8, 1u8), (12, 1), (41, 1), (41, 2), (41, 3), (41, 4)]);
-        let count = if rng.chance(2, 3) { 1 } else { rng.urange(2, 3) };
+        let count = if rng.chance(2, 3) {
+            1
+        } else {
+            rng.urange(2, 3)
+        };
         let wide = rng.chance(1, 3);
         let mut data = Vec::new();
         for _ in 0..count {
@@ -33,7 +43,13 @@ pub fn gen_controls(rng: &mut Rng) -> Vec<ReqHeader> {
                 data.push(index as u8);
             }
             match (group, var) {
-                (12, 1) => data.extend(refapp::crob(*rng.pick(&[0x01u8, 0x03, 0x04, 0x41, 0x81]), 1, rng.below(3) as u32 * 100, 0, 0)),
+                (12, 1) => data.extend(refapp::crob(
+                    *rng.pick(&[0x01u8, 0x03, 0x04, 0x41, 0x81]),
+                    1,
+                    rng.below(3) as u32 * 100,
+                    0,
+                    0,
+                )),
                 (41, 1) => {
                     data.extend_from_slice(&(rng.below(5) as i32 - 2).to_le_bytes());
                     data.push(0);
@@ -55,7 +71,11 @@ pub fn gen_controls(rng: &mut Rng) -> Vec<ReqHeader> {
         out.push(ReqHeader {
             group,
             var,
-            range: if wide { Range::Prefix16(count as u16) } else { Range::Prefix8(count as u8) },
+            range: if wide {
+                Range::Prefix16(count as u16)
+            } else {
+                Range::Prefix8(count as u8)
+            },
             data,
         });
     }
@@ -75,10 +95,30 @@ fn req(func: u8, seq: SeqSel, headers: Vec<ReqHeader>) -> Op {
 
 fn intervening(rng: &mut Rng, a: &[ReqHeader], b: &[ReqHeader]) -> Vec<Op> {
     match rng.below(19) {
-        0 => vec![req(refapp::FUNC_READ, SeqSel::Next, vec![ReqHeader::all(60, 1)])],
-        1 => vec![Op::Confirm { uns: rng.bool(), seq: if rng.bool() { ConfSel::Expected } else { ConfSel::Fixed(rng.below(16) as u8) }, from: Who::Master }],
-        2 => vec![Op::Raw { bytes: vec![0xC0 | rng.below(16) as u8, 0x03, 0x0C, 0x01, 0x17], from: Who::Master, to: Dest::Own }],
-        3 => vec![Op::Raw { bytes: vec![0xC0 | rng.below(16) as u8, 0x70], from: Who::Master, to: Dest::Own }],
+        0 => vec![req(
+            refapp::FUNC_READ,
+            SeqSel::Next,
+            vec![ReqHeader::all(60, 1)],
+        )],
+        1 => vec![Op::Confirm {
+            uns: rng.bool(),
+            seq: if rng.bool() {
+                ConfSel::Expected
+            } else {
+                ConfSel::Fixed(rng.below(16) as u8)
+            },
+            from: Who::Master,
+        }],
+        2 => vec![Op::Raw {
+            bytes: vec![0xC0 | rng.below(16) as u8, 0x03, 0x0C, 0x01, 0x17],
+            from: Who::Master,
+            to: Dest::Own,
+        }],
+        3 => vec![Op::Raw {
+            bytes: vec![0xC0 | rng.below(16) as u8, 0x70],
+            from: Who::Master,
+            to: Dest::Own,
+        }],
         4 => vec![Op::Request {
             func: refapp::FUNC_DIRECT_OPERATE_NR,
             seq: SeqSel::Fixed(rng.below(16) as u8),
@@ -88,7 +128,11 @@ fn intervening(rng: &mut Rng, a: &[ReqHeader], b: &[ReqHeader]) -> Vec<Op> {
             to: Dest::Bcast(*rng.pick(&[0xFFFFu16, 0xFFFE, 0xFFFD])),
         }],
         5 => vec![Op::Request {
-            func: *rng.pick(&[refapp::FUNC_SELECT, refapp::FUNC_READ, refapp::FUNC_DELAY_MEASURE]),
+            func: *rng.pick(&[
+                refapp::FUNC_SELECT,
+                refapp::FUNC_READ,
+                refapp::FUNC_DELAY_MEASURE,
+            ]),
             seq: SeqSel::Same,
             headers: if rng.bool() { a.to_vec() } else { vec![] },
             flags: None,
@@ -97,7 +141,11 @@ fn intervening(rng: &mut Rng, a: &[ReqHeader], b: &[ReqHeader]) -> Vec<Op> {
         }],
         6 => vec![Op::Repeat],
         7 => vec![Op::Repeat, Op::Repeat],
-        8 => vec![Op::SleepRel { base: TimeBase::SelectTimeout, delta_ms: *rng.pick(&[-1i64, 0, 1]), since_last_tx: false }],
+        8 => vec![Op::SleepRel {
+            base: TimeBase::SelectTimeout,
+            delta_ms: *rng.pick(&[-1i64, 0, 1]),
+            since_last_tx: false,
+        }],
         9 => vec![Op::Sleep(rng.range(1, 7000))],
         10 => vec![Op::Disconnect { eof: rng.bool() }, Op::Connect],
         11 => vec![Op::Connect],
@@ -108,11 +156,20 @@ fn intervening(rng: &mut Rng, a: &[ReqHeader], b: &[ReqHeader]) -> Vec<Op> {
         _ => {
             // a SELECT that is refused as a whole: the control headers of A or B followed (or preceded) by a header that
             // does not belong in a SELECT - possibly retransmitted
-            let mut headers = if rng.chance(2, 3) { a.to_vec() } else { b.to_vec() };
+            let mut headers = if rng.chance(2, 3) {
+                a.to_vec()
+            } else {
+                b.to_vec()
+            };
             let extra = match rng.below(3) {
                 0 => ReqHeader::all(60, 2),
                 1 => ReqHeader::all(1, 2),
-                _ => ReqHeader { group: 80, var: 1, range: refapp::Range::Range8(7, 7), data: vec![0] },
+                _ => ReqHeader {
+                    group: 80,
+                    var: 1,
+                    range: refapp::Range::Range8(7, 7),
+                    data: vec![0],
+                },
             };
             if rng.chance(3, 4) {
                 headers.push(extra);
@@ -165,7 +222,12 @@ impl Scenario for SboScenario {
     }
 
     fn stub_components(&self) -> Vec<&'static str> {
-        vec!["physical layer (SimSocket)", "TCP accept loop (sessions handed to ServerTask directly)", "ControlHandler / OutstationApplication (recording stubs)", "scripted master peer (reference codec)"]
+        vec![
+            "physical layer (SimSocket)",
+            "TCP accept loop (sessions handed to ServerTask directly)",
+            "ControlHandler / OutstationApplication (recording stubs)",
+            "scripted master peer (reference codec)",
+        ]
     }
 
     fn generate(&self, rng: &mut Rng, _tier: Tier) -> SoutCase {
@@ -173,14 +235,21 @@ impl Scenario for SboScenario {
         cfg.unsolicited = rng.chance(1, 4);
         cfg.select_timeout_ms = *rng.pick(&[5000u64, 1000, 100, 30_000]);
         cfg.confirm_timeout_ms = *rng.pick(&[5000u64, 2000]);
-        cfg.max_controls = if rng.chance(1, 4) { Some(rng.range(1, 3) as u16) } else { None };
+        cfg.max_controls = if rng.chance(1, 4) {
+            Some(rng.range(1, 3) as u16)
+        } else {
+            None
+        };
         cfg.close_mode = rng.bool();
         cfg.decode_all = rng.chance(1, 10);
         cfg.sol_tx = *rng.pick(&[2048usize, 249, 512]);
         let ctrl = if rng.chance(2, 3) {
             CtrlAnswers::AllSuccess
         } else {
-            CtrlAnswers::Random { seed: rng.next_u64(), success_eighths: 6 }
+            CtrlAnswers::Random {
+                seed: rng.next_u64(),
+                success_eighths: 6,
+            }
         };
         let a = gen_controls(rng);
         let mut b = gen_controls(rng);
@@ -195,12 +264,20 @@ impl Scenario for SboScenario {
         let mut script = Vec::new();
         if cfg.unsolicited && rng.chance(2, 3) {
             // confirm the null unsolicited response so that the outstation goes to idle
-            script.push(Op::Confirm { uns: true, seq: ConfSel::Expected, from: Who::Master });
+            script.push(Op::Confirm {
+                uns: true,
+                seq: ConfSel::Expected,
+                from: Who::Master,
+            });
         }
         let pairs = rng.urange(1, 8);
         for _ in 0..pairs {
             let first = if rng.chance(5, 6) { &a } else { &b };
-            let sel_seq = if rng.chance(5, 6) { SeqSel::Next } else { SeqSel::Fixed(rng.below(16) as u8) };
+            let sel_seq = if rng.chance(5, 6) {
+                SeqSel::Next
+            } else {
+                SeqSel::Fixed(rng.below(16) as u8)
+            };
             if rng.chance(9, 10) {
                 script.push(req(refapp::FUNC_SELECT, sel_seq, first.clone()));
             }
@@ -212,7 +289,13 @@ impl Scenario for SboScenario {
             for _ in 0..n_between {
                 script.extend(intervening(rng, &a, &b));
             }
-            let second = if rng.chance(5, 6) { first } else if rng.bool() { &a } else { &b };
+            let second = if rng.chance(5, 6) {
+                first
+            } else if rng.bool() {
+                &a
+            } else {
+                &b
+            };
             let op_seq = match rng.below(10) {
                 0 => SeqSel::Same,
                 1 => SeqSel::Fixed(rng.below(16) as u8),
@@ -296,7 +379,9 @@ fn echoed_statuses(frag: &refapp::Fragment) -> Vec<u8> {
 }
 
 fn count_objects(body: &[u8]) -> Option<usize> {
-    refapp::decode_objects(body, true).ok().map(|(_, objs)| objs.len())
+    refapp::decode_objects(body, true)
+        .ok()
+        .map(|(_, objs)| objs.len())
 }
 
 impl Oracle for SboOracle {
@@ -316,11 +401,18 @@ impl Oracle for SboOracle {
             }
         };
         // is it received by this outstation at all?
-        let addressed = sent.dest == self.own || (sent.dest == 0xFFFC && self.self_addr) || sent.dest >= 0xFFFD;
+        let addressed =
+            sent.dest == self.own || (sent.dest == 0xFFFC && self.self_addr) || sent.dest >= 0xFFFD;
         if !addressed || sent.bytes.len() < 2 {
             if addressed {
                 // too short to be a fragment, but it is still something that arrived in between
-                self.hist.push(Rx { bytes: sent.bytes.clone(), src: sent.src, t_ms: sent.t_ms, is_select_from_master: false, succeeded: false });
+                self.hist.push(Rx {
+                    bytes: sent.bytes.clone(),
+                    src: sent.src,
+                    t_ms: sent.t_ms,
+                    is_select_from_master: false,
+                    succeeded: false,
+                });
             }
             return None;
         }
@@ -361,7 +453,10 @@ impl Oracle for SboOracle {
                 let st = echoed_statuses(resp);
                 let n = count_objects(&sent.bytes[2..]);
                 let iin2_err = resp.iin.map(|i| i.1 & 0x07 != 0).unwrap_or(true);
-                entry.succeeded = !st.is_empty() && Some(st.len()) == n && st.iter().all(|s| *s == 0) && !iin2_err;
+                entry.succeeded = !st.is_empty()
+                    && Some(st.len()) == n
+                    && st.iter().all(|s| *s == 0)
+                    && !iin2_err;
             }
             verdict_class = 10 + entry.succeeded as u64;
         } else if func == refapp::FUNC_OPERATE {
@@ -370,11 +465,18 @@ impl Oracle for SboOracle {
             // collapse exact retransmissions directly before this OPERATE
             let mut j = n as isize - 1;
             let mut retransmissions = false;
-            while j > 0 && self.hist[j as usize].bytes == self.hist[j as usize - 1].bytes && self.hist[j as usize].src == self.hist[j as usize - 1].src {
+            while j > 0
+                && self.hist[j as usize].bytes == self.hist[j as usize - 1].bytes
+                && self.hist[j as usize].src == self.hist[j as usize - 1].src
+            {
                 j -= 1;
                 retransmissions = true;
             }
-            let sel = if j >= 0 { Some(self.hist[j as usize].clone()) } else { None };
+            let sel = if j >= 0 {
+                Some(self.hist[j as usize].clone())
+            } else {
+                None
+            };
             let mut sel_ok = false;
             let mut elapsed = 0u64;
             if let Some(s) = &sel {
@@ -386,16 +488,26 @@ impl Oracle for SboOracle {
                 }
             }
             // an identical fragment was already received in this session: its echo may come from memory (C05)
-            let is_retransmission = self.hist.iter().any(|h| h.bytes == sent.bytes && h.src == sent.src);
-            let any_select_outstanding = self.hist.iter().any(|h| h.is_select_from_master && h.succeeded);
+            let is_retransmission = self
+                .hist
+                .iter()
+                .any(|h| h.bytes == sent.bytes && h.src == sent.src);
+            let any_select_outstanding = self
+                .hist
+                .iter()
+                .any(|h| h.is_select_from_master && h.succeeded);
             if any_select_outstanding {
                 self.nontrivial = true;
             }
             let must_fail = !sel_ok || elapsed > self.select_timeout;
             // the converse clause speaks of a (fresh) SELECT directly followed by its OPERATE: a SELECT that is itself a
             // retransmission of an earlier fragment is answered from memory, and either outcome is accepted then
-            let sel_is_fresh = j >= 0 && !self.hist[..j as usize].iter().any(|h| h.bytes == self.hist[j as usize].bytes && h.src == self.hist[j as usize].src);
-            let must_succeed = sel_ok && !retransmissions && sel_is_fresh && elapsed < self.select_timeout;
+            let sel_is_fresh = j >= 0
+                && !self.hist[..j as usize].iter().any(|h| {
+                    h.bytes == self.hist[j as usize].bytes && h.src == self.hist[j as usize].src
+                });
+            let must_succeed =
+                sel_ok && !retransmissions && sel_is_fresh && elapsed < self.select_timeout;
             if sel_ok && elapsed == self.select_timeout {
                 self.bump("probe.operate_at_timeout_exact");
             }
@@ -414,7 +526,11 @@ impl Oracle for SboOracle {
                     self.bump("probe.operate_rejected_with_select_outstanding");
                 }
                 if !operate_callbacks.is_empty() {
-                    let why = if !sel.as_ref().map(|s| s.is_select_from_master).unwrap_or(false) {
+                    let why = if !sel
+                        .as_ref()
+                        .map(|s| s.is_select_from_master)
+                        .unwrap_or(false)
+                    {
                         "preceding-fragment-not-select"
                     } else if !sel.as_ref().map(|s| s.succeeded).unwrap_or(false) {
                         "select-did-not-succeed"
@@ -474,7 +590,10 @@ impl Oracle for SboOracle {
                         violation = Some(Violation::new(
                             "C04/operate-echo-status-differs-from-handler",
                             "",
-                            format!("step {}: handler answered {:?}, response echoes {:?}", step.op_index, operate_callbacks, st),
+                            format!(
+                                "step {}: handler answered {:?}, response echoes {:?}",
+                                step.op_index, operate_callbacks, st
+                            ),
                         ));
                     }
                 } else {
@@ -498,7 +617,13 @@ impl Oracle for SboOracle {
                 ));
             }
         }
-        self.fp = mix(&[self.fp, func as u64, verdict_class, from_master as u64, unicast as u64]);
+        self.fp = mix(&[
+            self.fp,
+            func as u64,
+            verdict_class,
+            from_master as u64,
+            unicast as u64,
+        ]);
         self.hist.push(entry);
         violation
     }
